@@ -218,6 +218,20 @@ public:
         m_n = mat.rows();
         // Scale matrix prior to the Schur decomposition
         const Scalar scale = mat.cwiseAbs().maxCoeff();
+        // If scale=0, mat is a zero matrix: all eigenvalues are zero and the
+        // identity matrix holds the eigenvectors, so we can early stop
+        // (dividing by the scale would fill the matrix with NaN)
+        if (scale == Scalar(0))
+        {
+            m_matT.resize(m_n, m_n);
+            m_matT.setZero();
+            m_eivec.resize(m_n, m_n);
+            m_eivec.setIdentity();
+            m_eivalues.resize(m_n);
+            m_eivalues.setZero();
+            m_computed = true;
+            return;
+        }
 
         // Reduce to real Schur form
         m_schur.compute(mat / scale);
